@@ -47,6 +47,9 @@ def FormatsOKb : Prop :=
   tabWideLine.map fieldCount = [tabWidePerLine] ∧ tabSmallLine.map fieldCount = [tabSmallPerLine] ∧
   tabWideLead.map (lineWidth 0) = [8] ∧ tabSmallLead.map (lineWidth 0) = [8] ∧ tabEnd = [[.lit "ENDT"]] ∧
   tabDefaultForm = "{:16.9E}{:16.9E}" ∧
+  -- the default case (fix 328435d): tested for by its own text, both columns through wtdmig's 16-character field helper
+  -- (`dmigField` / `dmigFieldFallback` above: `Bulk.dmigFld`), the strings handed on as they are
+  tabDefaultTest = tabDefaultForm ∧ tabPreHelper = "_dmig_field" ∧ tabPreForm = "{:s}{:s}" ∧
   -- CORD2x: three 16-wide lines, the continuation mark in column 73
   cordLine1.map (lineWidth 0) = [73] ∧ cordLine2.map (lineWidth 0) = [73] ∧ cordLine3.map (lineWidth 0) = [56] ∧
   -- the reader: 72 columns, name 8, fields 8 / 16 with 8 / 4 per line, comma: name + 8 tokens
